@@ -40,7 +40,7 @@ class Check(HCheck):
             src = [b"s:http|h:com|h:aaa|p:%05d|" % i for i in range(10400)]
             tgt = [b"s:http|h:com|h:zzz|p:%d|" % i for i in range(7)]
             big = al.crawl(*[(s_, (tgt[i % 7], tgt[(i + 1) % 7]) if i % 13 == 0 else (tgt[i % 7],)) for i, s_ in enumerate(src)])
-            sp.append(Space(Cfg("domain"), [big, al.links((tgt[0], src[0]))], 2, name="sizes/10k-pages"))
+            sp.append(Space(Cfg("domain"), [big, al.links((tgt[0], src[0]))], 2, name="sizes/10k-pages", slow=12))
         return sp
 
     def check_state(self, w, ctx):
